@@ -102,13 +102,18 @@ struct Scn {
     /// every value but the specified one must be rejected - whatever recipe produced it
     #[serde(default)]
     crc_sweep: Option<(bool, u8)>,
+    /// the sweep runs on a chunk whose OTHER protected block is corrupted (payload word swept: a
+    /// header field rewritten under a stale header CRC; header word swept: a payload byte changed
+    /// under a stale payload CRC): no value of the swept word may compensate for it
+    #[serde(default)]
+    crc_sweep_other_bad: bool,
     /// the packet sequence number is chosen (forged) such that the STORED header CRC word takes
     /// this boundary value (0, 1, 0x80000000, 0xFFFFFFFF, ...)
     #[serde(default)]
     header_crc_word: Option<u32>,
 }
 
-const N_CRC_SWEEP_QUICK: u64 = 512;
+const N_CRC_SWEEP_QUICK: u64 = 1024;
 
 fn default_mode() -> String {
     "release".into()
@@ -488,7 +493,7 @@ impl Check for C03Check {
         match tier {
             // every scenario exists for both build modes (index parity)
             Tier::Quick => 2 * (64 + SPECIAL.len() as u64 + 160 + N_CRC_SWEEP_QUICK),
-            Tier::Thorough => 2 * (64 + SPECIAL.len() as u64 + 6000 + 2 * 64 + 2 + 512),
+            Tier::Thorough => 2 * (64 + SPECIAL.len() as u64 + 6000 + 2 * 64 + 2 + 1024),
         }
     }
     fn dual_mode(&self) -> bool {
@@ -516,9 +521,11 @@ impl Check for C03Check {
                 // thorough: all 256 top bytes of both words (2 x 2^32 values); quick: every 16th top byte
                 // all 256 top bytes of both words = 2 x 2^32 values. (In the quick tier the second build
                 // mode repeats only every 16th slice.)
+                let other_bad = k >= 512;
+                let k = k % 512;
                 let (payload_word, top) = (k % 2 == 0, (k / 2) as u8);
                 if tier == Tier::Quick && mode == "relchk" && (k / 2) % 16 != 5 {
-                    let scn = Scn { mode: mode.into(), device_id: b[0].device_id, packet_seq: 0, channel_seq: 0, chip: 0, flags: 0, chunk_id: 0, payload: PayloadSpec { len: 1, fill: "zero".into(), seed: 0 }, sweep: None, faults: vec![], crc_sweep: None, header_crc_word: None };
+                    let scn = Scn { mode: mode.into(), device_id: b[0].device_id, packet_seq: 0, channel_seq: 0, chip: 0, flags: 0, chunk_id: 0, payload: PayloadSpec { len: 1, fill: "zero".into(), seed: 0 }, sweep: None, faults: vec![], crc_sweep: None, crc_sweep_other_bad: false, header_crc_word: None };
                     return serde_json::to_value(scn).unwrap();
                 }
                 let scn = Scn {
@@ -533,6 +540,7 @@ impl Check for C03Check {
                     sweep: None,
                     faults: vec![],
                     crc_sweep: Some((payload_word, top)),
+                    crc_sweep_other_bad: other_bad,
                     header_crc_word: None,
                 };
                 return serde_json::to_value(scn).unwrap();
@@ -591,6 +599,7 @@ impl Check for C03Check {
         let fill = fill.as_str();
         let scn = Scn {
             crc_sweep: None,
+            crc_sweep_other_bad: false,
             header_crc_word,
             mode: mode.into(),
             device_id: r.pick(b).device_id,
@@ -664,6 +673,17 @@ impl Check for C03Check {
             let at = if payload_word { base.len() - 4 } else { 16 };
             let correct = u32::from_le_bytes(base[at..at + 4].try_into().unwrap());
             let mut buf = base.clone();
+            if scn.crc_sweep_other_bad {
+                if payload_word {
+                    // packet sequence number rewritten, header CRC word left as it was
+                    buf[4..8].copy_from_slice(&0xDEAD_BEEFu32.to_le_bytes());
+                } else {
+                    // a payload byte changed, payload CRC word left as it was
+                    buf[20] ^= 0x5A;
+                }
+                stats.fault("crc_word_sweep_while_the_other_block_is_corrupt");
+            }
+            let other_bad = scn.crc_sweep_other_bad;
             let mut accepted_wrong: Vec<u32> = Vec::new();
             let mut accepted_right = false;
             let lo = (top as u32) << 24;
@@ -672,7 +692,7 @@ impl Check for C03Check {
                     let v = lo | low;
                     buf[at..at + 4].copy_from_slice(&v.to_le_bytes());
                     if Chunk::try_from(&buf[..]).is_ok() {
-                        if v == correct {
+                        if v == correct && !other_bad {
                             accepted_right = true;
                         } else if accepted_wrong.len() < 4 {
                             accepted_wrong.push(v);
@@ -690,12 +710,12 @@ impl Check for C03Check {
             if !accepted_wrong.is_empty() {
                 viol.push(Violation {
                     invariant: "C03.I2-corruption-accepted".into(),
-                    signature: format!("accepted:crc-word-sweep:{}", if payload_word { "payload" } else { "header" }),
+                    signature: format!("accepted:crc-word-sweep:{}{}", if payload_word { "payload" } else { "header" }, if other_bad { ":other-block-corrupt" } else { "" }),
                     detail: format!("chunk accepted with {} CRC word(s) {:08x?} although the specified value is {correct:08x}", if payload_word { "payload" } else { "header" }, accepted_wrong),
                     narrowed: None,
                 });
             }
-            if (correct >> 24) as u8 == top && !accepted_right {
+            if (correct >> 24) as u8 == top && !accepted_right && !other_bad {
                 viol.push(Violation { invariant: "C03.I1-wellformed-rejected".into(), signature: "rejected:crc-sweep".into(), detail: "the chunk with the specified CRC word was rejected".into(), narrowed: None });
             }
             return Outcome { log_hash: log.finish(), nontrivial: true, violations: viol };
